@@ -153,6 +153,7 @@ func cmdCheck(args []string) int {
 	only := fs.String("o", "", "only obligations whose name contains this")
 	model := fs.Bool("m", false, "print models of failed obligations")
 	lemmas := fs.Bool("lemmas", false, "also prove lemmas")
+	memlem := fs.Bool("memlemmas", false, "also prove the word-level memory axioms")
 	fs.Parse(args)
 	KeepQueries = *keep
 	p, err := Load(RepoDir, "./...")
@@ -193,6 +194,9 @@ func cmdCheck(args []string) int {
 			lobls = append(lobls, lv.Obls...)
 		}
 		lobls = append(lobls, w.BVLemmas()...)
+		if *memlem {
+			lobls = append(lobls, MemLemmas()...)
+		}
 		res := DischargeAll(lobls, *timeout, false, runtime.NumCPU())
 		for _, r := range res {
 			if r.Status != "unsat" || *verbose {
